@@ -1189,9 +1189,12 @@ def h_append_data(h: H):
     schema = SObj("Schema", {"schema_id": 1, "fields": PList([])}, label="arg-schema") if has_schema_arg else None
     table_schema = SObj("Schema", {"schema_id": 1, "fields": PList([])}, label="table-schema")
 
+    nos = {"v": False}
+
     def resolve(I, fv, a, k):
         order.append("resolve")
-        return None if I.ctx.flip("no-persisted-schema") else table_schema
+        nos["v"] = I.ctx.flip("no-persisted-schema")
+        return None if nos["v"] else table_schema
     h.reg.contracts[f"{TX}:Transaction._resolve_table_schema"] = resolve
 
     def validate(I, fv, a, k):
@@ -1242,6 +1245,9 @@ def h_append_data(h: H):
                                                                                z3.Contains(fp, z3.SubString(h.ctx.ghost["uuid"]["hex"][0], 0, 16)) if h.ctx.ghost["uuid"]["hex"] else z3.BoolVal(False)))
         used = order[write_i[0]][2]
         h.ensure("SCHEMA:file-written-with-the-argument-or-else-the-persisted-schema", used is (schema if has_schema_arg else table_schema))
+    if not has_schema_arg and nos["v"]:
+        h.ensure("NO-SCHEMA:append-without-any-available-schema-raises-ValueError-before-writing-anything",
+                 out == "raise" and val.cls == "ValueError" and not st.events and not write_i and not marker_i, detail=repr(val))
     if out == "raise":
         h.ensure("REJECT-CLEAN:a-rejected-append-queues-nothing", not tx.fields["_operations"].items)
         if not marker_i:
